@@ -327,6 +327,10 @@ func pools(quick bool) []poolDef {
 			methods: []string{"GET", "HEAD", "POST", "CONNECT", "FOO"}})
 	}
 	// routes that reached their trailing-slash option through Update
+	// paths ending in a doubled slash are one extra slash away from the path ending in one slash (static and
+	// parameter patterns only: whether a catch-all captures an empty segment is not decided by the statement)
+	ps = append(ps, poolDef{name: "double-slash", patterns: []string{"/", "/a", "/a/", "/{p0}", "/{p0}/", "/a/b/", "/a/{p0}/", "/a/{p0}", "/ab/"},
+		paths: []string{"/a//", "/a/b//", "/b//", "/ab//", "/a/", "/a", "/a/b/", "/a/b", "/a/b///", "/a//b/"}, hosts: []string{""}, k: 3})
 	ps = append(ps, poolDef{name: "flat-via-update", patterns: flatQ, paths: rsx.GenPaths([]string{"a", "b", "ab"}, 2), hosts: []string{""}, k: 2, viaUpdate: true})
 	if !quick {
 		core := append([]string{"/"}, rsx.GenPatterns([]string{"a", "{}", "*{}"}, 2, true, "")...)
